@@ -1,18 +1,37 @@
 """C19 - line transports: real LinesTransportMixin (tcp-lines / unix-lines) over an in-memory StreamReader and the
-real TCPUDSServerTransport.handle_client, against Model/Lines.lean (the oracle)."""
+real TCPUDSServerTransport.handle_client, against Model/Lines.lean (the oracle) and Model/LinesExec.lean (whole executions:
+client operation sequences, server loop with end reasons, both directions composed)."""
 import asyncio
 
 from common import hx, setup_repo_import
 from vloop import MemWriter, Stall, vrun
 
 ID = "C19"
-GENS = []
+GENS = ["c19_lines"]
 PROOF = "Gallia.Proofs.C19"
 DRIVER = "c19"
 ORACLE = True
 ASSUMPTIONS = [
-    "asyncio.StreamReader.readline consumes nothing until it can return and returns the unterminated tail at EOF",
-    "malformed-line stream restricted to ASCII bytes (str.strip() on non-ASCII whitespace is outside the model)",
+    "asyncio.StreamReader.readline consumes nothing until it can return and returns the unterminated tail at EOF; "
+    "wait_for cancels the pending readline without consuming anything (checked on every run by the operation-sequence scripts)",
+    "the StreamReader is modelled without its line-length limit: neither side passes a `limit` (regenerated from the AST, "
+    "obligation code_facts_agree), the asyncio default (65536) covers every message up to 32767 bytes (limits_cover_property_range); "
+    "longer lines (ValueError from readline, buffer cleared) are outside the model",
+    "client side: str.strip() on non-ASCII whitespace after the UTF-8 decode (NBSP, U+2028 ...) is outside the model; the server "
+    "decodes strictly as ASCII and is modelled on all bytes",
+    "feed after end-of-stream cannot happen on a real stream (feed_data asserts) and is ignored by the model; a write on a closed "
+    "StreamWriter is outside the model (scripts never write after close)",
+    "request() = write; read is modelled sequentially; that the transport mutex makes the pair atomic among concurrent users is "
+    "C05's subject - here only: the mutex is free again after every request, also a timed-out one",
+    "the handler behind the server loop is a parameter of the theorems (answer / no answer / raise); the tie runs the real "
+    "UDSServerTransport.handle_request over a scripted respond() and over a real RandomUDSServer; handle_request's 10 s inactivity "
+    "reset is not exercised",
+    "empty messages are outside the property (lengths 1..4095): an empty request line reaches handle_request(b\"\"), which raises "
+    "(IndexError on pdu[0] in respond), and thereby ends the server loop - modelled (server_empty_line_ends) and tied, not a finding",
+    "after the loop has ended handle_client logs sum(response_times) / len(response_times): ZeroDivisionError for a connection on "
+    "which no request was handled; outside the property (the loop has ended), counted in the evidence notes",
+    "kernel TCP / unix-socket segmentation and flow control are represented by feed_data chunking and in-memory pipes with seeded "
+    "piece sizes and virtual delays",
 ]
 
 
@@ -335,17 +354,831 @@ def run(ctx):
                          site="TCPUDSServerTransport.handle_client")
     ctx.traces_validated += len(srv_cases)
 
+    # --- whole executions (operation sequences, write side, server loop with end reasons, both directions) ---
+    _run_client_sequences(ctx, variants)
+    _run_write_side(ctx, variants)
+    _run_server_sequences(ctx, _srv)
+    _run_exchange(ctx, _srv, variants)
+
+
+
+# =================================================================================================
+# whole executions: Model/LinesExec.lean (cstep / crun, srvLoop / srvFeed / srvEof, exchange)
+# =================================================================================================
+
+class _CountWriter(MemWriter):
+    """MemWriter that counts close() calls"""
+
+    def __init__(self):
+        super().__init__()
+        self.close_calls = 0
+
+    def close(self):
+        self.close_calls += 1
+        super().close()
+
+
+def _res(d):
+    return "eos" if d == b"" else "msg " + d.hex()
+
+
+async def _connect(cls, scheme, writer):
+    """the client made by its own connect(): asyncio.open_connection / open_unix_connection are replaced by a stub that
+    builds the StreamReader with the `limit` connect() asks for (asyncio's default when it passes none)"""
+    from gallia.transports.base import TargetURI
+
+    made = {}
+
+    async def fake_open(*a, **k):
+        made["reader"] = asyncio.StreamReader(limit=k["limit"]) if k.get("limit") else asyncio.StreamReader()
+        return made["reader"], writer
+
+    o1, o2 = asyncio.open_connection, asyncio.open_unix_connection
+    asyncio.open_connection = fake_open
+    asyncio.open_unix_connection = fake_open
+    try:
+        uri = f"{scheme}://127.0.0.1:1" if scheme.startswith("tcp") else f"{scheme}:///tmp/verif-c19-client.sock"
+        tr = await cls.connect(TargetURI(uri))
+    finally:
+        asyncio.open_connection, asyncio.open_unix_connection = o1, o2
+    return tr, made["reader"]
+
+
+def _in_range(ops):
+    """whether everything the script sends / delivers stays within the property's message lengths (1..4095 bytes)"""
+    if any(len(o[1]) > 4095 for o in ops if o[0] in ("write", "request")):
+        return False
+    return max((len(l) for l in b"".join(o[1] for o in ops if o[0] == "feed").split(b"\n")), default=0) <= 2 * 4095 + 2
+
+
+async def _client_seq(cls, scheme, ops):
+    """ops: ('feed', bytes) | ('eof',) | ('read', timeout) | ('write', bytes) | ('request', bytes, timeout) | ('close',)
+    -> one canonical result string per op, in the format of the driver"""
+    from gallia.transports.base import TargetURI
+
+    writer = _CountWriter()
+    tr, reader = await _connect(cls, scheme, writer)
+    res = []
+    for op in ops:
+        before = len(writer.data)
+        try:
+            if op[0] == "feed":
+                reader.feed_data(op[1])
+                res.append("ok")
+            elif op[0] == "eof":
+                reader.feed_eof()
+                res.append("ok")
+            elif op[0] == "write":
+                try:
+                    n = await tr.write(op[1], timeout=1.0)
+                    res.append(f"wrote {n} {hx(writer.data[before:])}")
+                except Exception as e:  # noqa: BLE001 - a message that cannot be written is a delivery failure
+                    res.append(f"write-refused:{type(e).__name__} {hx(writer.data[before:])}")
+            elif op[0] == "request":
+                try:
+                    d = await tr.request(op[1], timeout=op[2])
+                    r = _res(d)
+                except (TimeoutError, asyncio.TimeoutError):
+                    r = "pending"
+                except Exception as e:  # noqa: BLE001
+                    r = "bad" if len(writer.data) > before else f"write-refused:{type(e).__name__}"
+                res.append(f"{hx(writer.data[before:])} {r}")
+            elif op[0] == "close":
+                c0 = writer.close_calls
+                await tr.close()
+                res.append(f"closed {writer.close_calls - c0}")
+            else:
+                try:
+                    d = await tr.read(timeout=op[1])
+                    res.append(_res(d))
+                except (TimeoutError, asyncio.TimeoutError):
+                    res.append("pending")
+                except Exception:  # noqa: BLE001 - binascii.Error, UnicodeDecodeError, ValueError
+                    res.append("bad")
+        except Exception as e:  # noqa: BLE001
+            res.append(f"exc:{type(e).__name__}")
+    # the transport mutex must be free again after every request (also after a timed-out one)
+    if tr.mutex.locked():
+        res.append("mutex-left-locked")
+    return res
+
+
+def _seq_lines(ops):
+    lines = ["reset"]
+    for op in ops:
+        if op[0] in ("feed", "write", "request"):
+            lines.append(f"{op[0]} {hx(op[1])}")
+        elif op[0] == "eof":
+            lines.append("eof")
+        elif op[0] == "close":
+            lines.append("close")
+        else:
+            lines.append("read")
+    return lines
+
+
+def _api(x):
+    """API level: a line that decodes to b"" and end-of-stream both give b"" """
+    return x.replace("msg -", "eos")
+
+
+def _ops_json(ops):
+    return [[o[0]] + [x.hex() if isinstance(x, bytes) else x for x in o[1:]] for o in ops]
+
+
+def _seq_key(ops, i, impl, model):
+    op = ops[i][0]
+    eof_before = any(o[0] == "eof" for o in ops[:i])
+    iw, mw = impl.split(), model.split()
+    if op in ("read", "request"):
+        ir, mr = (iw[-2] if iw[-2:-1] == ["msg"] else iw[-1]), (mw[-2] if mw[-2:-1] == ["msg"] else mw[-1])
+        if op == "request" and iw[0] != mw[0]:
+            return "lines-client-seq:request-wrote-other-bytes"
+        if eof_before and mr == "eos" and ir == "msg":
+            return "lines-client:unterminated-tail-at-eof-returned-as-message"
+        if mr == "pending":
+            return "lines-client-seq:blocked-read-returned:" + ir
+        if mr == "msg" and ir == "msg":
+            later = any(o[0] == "read" for o in ops[:i])
+            return "lines-client-seq:wrong-message" + (":after-earlier-read" if later else "")
+        return f"lines-client-seq:{mr}-vs-{ir}"
+    if op == "write":
+        return "lines-client-seq:write-bytes-differ" if iw[0] == "wrote" else "lines-client-seq:" + iw[0]
+    return f"lines-client-seq:{op}:{model}-vs-{impl}".replace(" ", "_")
+
+
+def _run_scripts(ctx, scripts, label_prefix, site):
+    """scripts: (label, cls, scheme, ops); all run inside ONE virtual-time loop, compared op by op with crun"""
+    async def all_(part):
+        out = []
+        for _label, cls, scheme, ops in part:
+            try:
+                out.append(await asyncio.wait_for(_client_seq(cls, scheme, ops), 120.0))  # virtual seconds: a hang is a result
+            except (TimeoutError, asyncio.TimeoutError):
+                out.append(["hang"])
+            except Exception as e:  # noqa: BLE001
+                out.append([f"exc:{type(e).__name__}"])
+        return out
+
+    impl = []
+    for a in range(0, len(scripts), 400):  # a fresh loop per part keeps the virtual clock small (timer resolution)
+        try:
+            impl += vrun(all_(scripts[a:a + 400]))[0]
+        except Stall:
+            impl += [["stall"]] * len(scripts[a:a + 400])
+    batch, index = [], []
+    for _label, _cls, _scheme, ops in scripts:
+        ml = _seq_lines(ops)
+        index.append((len(batch), len(ml)))
+        batch += ml
+    out = ctx.lean(batch)
+    for (label, _cls, scheme, ops), r, (off, n) in zip(scripts, impl, index):
+        mo = [_api(x) for x in out[off + 1: off + n]]
+        ctx.ev()
+        ctx.kind(f"{label_prefix}:{label}")
+        ctx.nontrivial((scheme, repr(ops)))
+        if r != mo:
+            i = next((k for k in range(min(len(r), len(mo))) if r[k] != mo[k]), min(len(r), len(mo)))
+            if r in (["hang"], ["stall"]) or r[:1] == ["exc:"]:
+                ctx.disagree("lines-client-seq:script-" + r[0], f"{scheme}: the operation sequence does not come back",
+                             {"side": "client-seq", "scheme": scheme, "ops": _ops_json(ops)}, impl=r, model=mo,
+                             spec_violated=_in_range(ops), site=site)
+                continue
+            if i >= len(ops):
+                ctx.disagree("lines-client-seq:" + (r[-1] if r else "no-result"), f"{scheme}: after the script: {r[-1:]}",
+                             {"side": "client-seq", "scheme": scheme, "ops": _ops_json(ops)}, impl=r, model=mo,
+                             spec_violated=True, site=site)
+                continue
+            key = _seq_key(ops, i, r[i], mo[i])
+            # the property speaks about messages of 1..4095 bytes and about read / write; longer messages and close() are
+            # modelled (the code has no limit of its own) but a difference there alone does not falsify the property
+            in_prop = _in_range(ops[: i + 1]) and ops[i][0] != "close"
+            ctx.disagree(key, f"{scheme} operation sequence differs from the client machine at op {i} ({ops[i][0]}): impl={r[i]} model={mo[i]}",
+                         {"side": "client-seq", "scheme": scheme, "ops": _ops_json(ops[: i + 1])},
+                         impl=r[: i + 1], model=mo[: i + 1], spec_violated=in_prop, site=site)
+    ctx.traces_validated += len(scripts)
+    return impl
+
+
+def _run_client_sequences(ctx, variants):
+    """every operation sequence up to a length bound over a small alphabet: chunks that split a hex digit pair, split the
+    newline off, carry several lines, a line plus a partial one, CRLF, an undecodable line; read (timeout) and eof at
+    every position"""
+    chunks = [b"3", b"e", b"\n", b"10\n2", b"2\r\n3E\n", b"zz\n"]
+    syms = [("feed", c) for c in chunks] + [("read", 0.25), ("eof",)]
+    L = ctx.pick(5, 6)
+    seqs = [[]]
+    frontier = [[]]
+    for _ in range(L):
+        nxt = []
+        for s in frontier:
+            ended = any(o[0] == "eof" for o in s)
+            for sym in syms:
+                if ended and sym[0] in ("feed", "eof"):
+                    continue
+                nxt.append(s + [sym])
+        seqs += nxt
+        frontier = nxt
+    scripts = []
+    for k, s in enumerate(seqs):
+        cls, scheme = variants[k % 2]  # both transports share the mixin: alternate, the seeded part below runs both
+        scripts.append(("exhaustive", cls, scheme, s + [("read", 0.25)] * 4))
+    ctx.exhaustive_parts.append(f"every client operation sequence of length <= {L} over {len(chunks)} chunks (split hex digit, split newline, "
+                                f"several lines per chunk, line + partial line, CRLF / upper case, undecodable line) + read + eof "
+                                f"(no feed after eof), each followed by 4 reads: {len(scripts)} scripts")
+    # write / request / close mixed in: exhaustive over a second alphabet, shorter
+    syms2 = [("feed", b"3e0"), ("feed", b"0\n"), ("feed", b"1001\n7f\n"), ("read", 0.25), ("write", b"\x3e\x00"),
+             ("request", b"\x10\x01", 0.25), ("close",), ("eof",)]
+    L2 = ctx.pick(4, 5)
+    frontier = [[]]
+    seqs2 = []
+    for _ in range(L2):
+        nxt = []
+        for s in frontier:
+            ended = any(o[0] == "eof" for o in s)
+            closed = any(o[0] == "close" for o in s)
+            for sym in syms2:
+                if ended and sym[0] in ("feed", "eof"):
+                    continue
+                if closed and sym[0] in ("write", "request"):  # a write on a closed StreamWriter is outside the model
+                    continue
+                nxt.append(s + [sym])
+        seqs2 += nxt
+        frontier = nxt
+    for k, s in enumerate(seqs2):
+        cls, scheme = variants[k % 2]
+        scripts.append(("exhaustive-rw", cls, scheme, s + [("read", 0.25)] * 2))
+    ctx.exhaustive_parts.append(f"every sequence of length <= {L2} over feed x3 / read / write / request / close / eof: {len(seqs2)} scripts")
+    # seeded long sequences, both transports
+    rng = ctx.rng
+    for _ in range(ctx.pick(60, 600)):
+        ms = _msgs(rng, rng.randint(1, 6), ctx.pick(200, 4095))
+        stream = b"".join((m.hex() if rng.random() < 0.8 else m.hex().upper()).encode() + rng.choice([b"\n", b"\n", b"\r\n", b" \n"]) for m in ms)
+        pieces = _splits(rng, stream, "multi")
+        ops = []
+        closed = False
+        for c in pieces:
+            ops.append(("feed", c))
+            for _ in range(rng.choice([0, 1, 1, 2])):
+                k = rng.random()
+                if k < 0.7:
+                    ops.append(("read", rng.choice([0.1, 1.0])))
+                elif k < 0.8 and not closed:
+                    ops.append(("write", _msgs(rng, 1, 40)[0]))
+                elif k < 0.95 and not closed:
+                    ops.append(("request", _msgs(rng, 1, 40)[0], 0.2))
+                else:
+                    ops.append(("close",))
+                    closed = True
+        if rng.random() < 0.4:
+            ops.append(("eof",))
+        ops += [("read", 0.2)] * (len(ms) + 1)
+        for cls, scheme in variants:
+            scripts.append(("seeded-seq", cls, scheme, ops))
+    impl = _run_scripts(ctx, scripts, "client-seq", "LinesTransportMixin.read/write, BaseTransport.request/close")
+    ctx.sample({"scheme": scripts[40][2], "ops": _ops_json(scripts[40][3]), "impl": impl[40]})
+
+
+def _run_write_side(ctx, variants):
+    """write(msg) emits exactly hex(msg) + newline: lengths 1, 2, 4094, 4095, 4096, 20000, every first byte value; what was
+    written is fed back (cut at random points) and must be read back as the same message"""
+    rng = ctx.rng
+    scripts = []
+    msgs = []
+    for n in (1, 2, 4094, 4095, 4096, 20000):
+        msgs.append(bytes(rng.randrange(256) for _ in range(n)))
+    for b in range(256):
+        msgs.append(bytes([b]) + bytes(rng.randrange(256) for _ in range(rng.choice([0, 1, 2]))))
+    for k, m in enumerate(msgs):
+        wire = m.hex().encode() + b"\n"
+        cls, scheme = variants[k % 2]
+        cut = rng.randrange(1, len(wire))
+        ops = [("write", m), ("feed", wire[:cut]), ("read", 0.5), ("feed", wire[cut:]), ("read", 0.5), ("read", 0.5)]
+        scripts.append((f"write-len-{len(m) if len(m) > 3 else 'short'}", cls, scheme, ops))
+        if len(m) > 3:
+            scripts.append((f"request-len-{len(m)}", variants[(k + 1) % 2][0], variants[(k + 1) % 2][1],
+                            [("feed", wire), ("request", m, 0.5), ("read", 0.5)]))
+    _run_scripts(ctx, scripts, "client-write", "LinesTransportMixin.write")
+    ctx.exhaustive_parts.append("write(): every first byte value 0..255; lengths 1, 2, 4094, 4095, 4096, 20000")
+
+
+class _Reply2:
+    def __init__(self, pdu):
+        self.pdu = pdu
+
+
+def _make_server_classes(_srv):
+    """the line loop around the REAL UDSServerTransport.handle_request; behind it a scripted `respond`:
+    first byte 0xEE -> raises, first byte a multiple of 4 -> None (no reply), otherwise reversed request + counter byte;
+    the empty request raises by itself (IndexError on pdu[0])"""
+
+    class _Scripted:
+        class _State:
+            def reset(self):
+                pass
+
+        def __init__(self, owner):
+            self.owner = owner
+            self.state = self._State()
+
+        async def respond(self, request):
+            m = bytes(request.pdu)
+            if m[0] == 0xEE:
+                raise RuntimeError("scripted handler failure")
+            if m[0] % 4 == 0:
+                return None
+            return _Reply2(m[::-1] + bytes([self.owner.cur % 256]))
+
+    class TX(_srv.TCPUDSServerTransport):
+        def __init__(self):
+            self.n = 0
+            self.cur = 0
+            self.server = _Scripted(self)
+            self.last_time_active = _srv.time()
+            self.log = []  # (request, reply | None | 'raised')
+
+        async def handle_request(self, m):
+            self.cur = self.n
+            self.n += 1
+            try:
+                r = await _srv.UDSServerTransport.handle_request(self, m)
+            except Exception:
+                self.log.append((bytes(m), "raised"))
+                raise
+            self.log.append((bytes(m), r[0]))
+            return r
+
+    return TX
+
+
+class _FakeServer2:
+    async def __aenter__(self):
+        return self
+
+    async def __aexit__(self, *a):
+        return False
+
+    async def serve_forever(self):
+        await asyncio.Event().wait()
+
+
+async def _start_via_run(_srv, base, kind, init=None):
+    """start the transport through its own run(); asyncio.start_server / start_unix_server are replaced by a recorder
+    -> (transport object, client_connected callback, limit passed by run())"""
+    from gallia.services.uds.server import UnixUDSServerTransport
+    from gallia.transports.base import TargetURI
+
+    transport_cls, uri = [(_srv.TCPUDSServerTransport, "tcp-lines://127.0.0.1:20162"),
+                          (UnixUDSServerTransport, "unix-lines:///tmp/verif-c19.sock")][kind]
+    got = {}
+
+    async def fake_start(cb, *a, **k):
+        got["cb"] = cb
+        got["limit"] = k.get("limit")
+        return _FakeServer2()
+
+    o1, o2 = _srv.asyncio.start_server, _srv.asyncio.start_unix_server
+    _srv.asyncio.start_server = fake_start
+    _srv.asyncio.start_unix_server = fake_start
+    try:
+        class TT(base, transport_cls):
+            def __init__(self):
+                if init is not None:
+                    init(self)
+                else:
+                    base.__init__(self)
+                self.target = TargetURI(uri)
+
+        t = TT()
+        task = asyncio.ensure_future(t.run())
+        for _ in range(5):
+            await asyncio.sleep(0)
+        task.cancel()
+        try:
+            await task
+        except BaseException:  # noqa: BLE001
+            pass
+    finally:
+        _srv.asyncio.start_server, _srv.asyncio.start_unix_server = o1, o2
+    return t, got.get("cb", t.handle_client), got.get("limit")
+
+
+def _task_end(task):
+    if not task.done():
+        return "running"
+    if task.cancelled():
+        return "cancelled"
+    e = task.exception()
+    return "returned" if e is None else type(e).__name__
+
+
+async def _server_seq(_srv, TX, kind, steps):
+    """steps: ('feed', bytes) | ('eof',) -> per step: (written so far, loop ended?, unread bytes, requests handed over)"""
+    t, handler, limit = await _start_via_run(_srv, TX, kind)
+    reader = asyncio.StreamReader(limit=limit) if limit else asyncio.StreamReader()
+    writer = _CountWriter()
+    task = asyncio.ensure_future(handler(reader, writer))
+    obs = []
+    for st in steps:
+        if st[0] == "feed":
+            reader.feed_data(st[1])
+        else:
+            reader.feed_eof()
+        await asyncio.sleep(0.01)
+        obs.append((hx(writer.data), _task_end(task), hx(bytes(reader._buffer)), t.n))
+    end = _task_end(task)
+    if not task.done():
+        task.cancel()
+    try:
+        await task
+    except BaseException:  # noqa: BLE001 - ZeroDivisionError after a connection without handled requests
+        pass
+    return obs, end, writer.close_calls, list(t.log)
+
+
+_END_IMPL = {"waiting": ("running",), "eof": ("returned", "ZeroDivisionError"), "eof-tail": ("returned", "ZeroDivisionError"),
+             "undecodable": ("returned", "ZeroDivisionError"), "raised": ("returned", "ZeroDivisionError")}
+
+
+def _run_server_sequences(ctx, _srv):
+    """the server loop fed chunk by chunk, observed after every chunk: replies written so far, whether the loop has ended,
+    the bytes left unread, the number of requests handed to handle_request; against srvFeed / srvEof"""
+    TX = _make_server_classes(_srv)
+    rng = ctx.rng
+    alphabet = [b"3e00\n", b"3E00\r\n", b" 3e00 \n", b"\n", b"zz\n", b"ee01\n", b"1001\n", b"3e", b"00\n2701\n", b"3", b"\xc3\xa9\n", b"3e 00\n"]
+    cases = []
+    L = ctx.pick(2, 3)
+    frontier = [[]]
+    for _ in range(L):
+        nxt = [s + [("feed", c)] for s in frontier for c in alphabet]
+        for s in nxt:
+            cases.append(("exhaustive", s))
+            cases.append(("exhaustive+eof", s + [("eof",)]))
+        frontier = nxt
+    cases.append(("exhaustive+eof", [("eof",)]))
+    ctx.exhaustive_parts.append(f"server loop: every chunk sequence of length <= {L} over {len(alphabet)} chunks (lower / upper case, CRLF, blanks, "
+                                f"empty line, undecodable, non-ASCII, raising request, unanswered request, split lines), with and without EOF: {len(cases)} cases")
+    for _ in range(ctx.pick(80, 800)):
+        ms = _msgs(rng, rng.randint(1, 8), ctx.pick(100, 4095))
+        parts = []
+        for m in ms:
+            r = rng.random()
+            if r < 0.04:
+                m = b"\xee" + m
+            line = (m.hex().upper() if rng.random() < 0.2 else m.hex()).encode()
+            if r > 0.97:
+                line = rng.choice([b"", b"3e0", b"xy", b" "])
+            parts.append(rng.choice([b"", b"", b" ", b"\t"]) + line + rng.choice([b"\n", b"\n", b"\r\n", b" \n"]))
+        stream = b"".join(parts) + (b"" if rng.random() < 0.7 else rng.choice([b"3e", b"3e0", b"1"]))
+        steps = [("feed", c) for c in _splits(rng, stream, rng.choice(["whole", "multi", "multi"]))]
+        if rng.random() < 0.5:
+            steps.append(("eof",))
+        cases.append(("seeded", steps))
+    for size in (4094, 4095, 4096, 20000):
+        m = bytes([0x36]) + bytes(rng.randrange(256) for _ in range(size - 1))
+        stream = m.hex().encode() + b"\n3e00\n"
+        cases.append((f"long-{size}", [("feed", c) for c in _splits(rng, stream, "multi")] + [("eof",)]))
+
+    async def all_(a, b):
+        out = []
+        for k, (_label, steps) in list(enumerate(cases))[a:b]:
+            try:
+                out.append(await asyncio.wait_for(_server_seq(_srv, TX, k % 2, steps), 600.0))
+            except Exception as e:  # noqa: BLE001
+                out.append(([("-", f"harness:{type(e).__name__}", "-", -1)], "?", 0, []))
+        return out
+
+    impl = []
+    for a in range(0, len(cases), 200):
+        impl += vrun(all_(a, a + 200))[0]
+    batch, index = [], []
+    for _label, steps in cases:
+        index.append(len(batch))
+        batch.append("reset")
+        for st in steps:
+            batch.append("sfeed " + hx(st[1]) if st[0] == "feed" else "seof")
+            batch.append("sstate")
+    out = ctx.lean(batch)
+    zde = 0
+    for ck, ((label, steps), (obs, end, closes, log), off) in enumerate(zip(cases, impl, index)):
+        ctx.ev()
+        ctx.kind("server-seq:" + label)
+        ctx.nontrivial(("srv-seq", repr(steps)))
+        if end == "ZeroDivisionError":
+            zde += 1
+        for i, (w, e, left, n) in enumerate(obs):
+            mw, me, ml, mn = out[off + 2 + 2 * i].split()
+            ok = (w == mw and e in _END_IMPL[me] and int(n) == int(mn) and (me == "waiting" or left == ml))
+            if me == "waiting" and ok:
+                # while serving, the unread bytes are the incomplete line
+                ok = left == ml
+            if not ok:
+                if w != mw:
+                    key = "lines-server-seq:replies-differ"
+                elif int(n) != int(mn):
+                    key = "lines-server-seq:requests-handed-over-differ" + (":unterminated-tail-handled-at-eof" if me == "eof-tail" else "")
+                elif e not in _END_IMPL[me]:
+                    key = f"lines-server-seq:loop-{e}-but-model-{me}"
+                else:
+                    key = "lines-server-seq:unread-bytes-differ"
+                ctx.disagree(key, f"server loop differs from srvFeed/srvEof after step {i}: impl={(w, e, left, n)} model={out[off + 2 + 2 * i]}",
+                             {"side": "server-seq", "kind": ["tcp", "unix"][ck % 2],
+                              "steps": [[s[0]] + [x.hex() for x in s[1:]] for s in steps[: i + 1]]},
+                             impl=[list(o) for o in obs[: i + 1]], model=[out[off + 2 + 2 * j] for j in range(i + 1)],
+                             spec_violated=label not in ("long-4096", "long-20000"),
+                             site="TCPUDSServerTransport.handle_client / UDSServerTransport.handle_request")
+                break
+        # one reply line per answered request, none for an unanswered one, in request order
+        want = b"".join(r.hex().encode() + b"\n" for _m, r in log if isinstance(r, bytes))
+        if obs and obs[-1][0] != hx(want):
+            ctx.disagree("lines-server-seq:written-is-not-the-replies-in-order", "bytes written differ from the replies handle_request gave, in order",
+                         {"side": "server-seq", "steps": [[s[0]] + [x.hex() for x in s[1:]] for s in steps]},
+                         impl=obs[-1][0], model=hx(want), spec_violated=True, site="TCPUDSServerTransport.handle_client")
+        if closes:
+            ctx.notes["server-loop-closes-writer"] = "handle_client called writer.close() (the model leaves the connection open)"
+    ctx.notes["zero-division-after-connection-without-requests"] = (
+        f"{zde} of {len(cases)} server-loop runs ended with ZeroDivisionError in the average-response-time log line after the loop "
+        "(no request had been handled); outside the property, the loop had already ended")
+    ctx.traces_validated += len(cases)
+
+
+class _Pipe:
+    """one direction of an in-memory connection: what is written is delivered to the peer's StreamReader in pieces of
+    seeded sizes with seeded (virtual) delays"""
+
+    def __init__(self, reader, rng, maxpiece):
+        self.reader = reader
+        self.rng = rng
+        self.maxpiece = maxpiece
+        self.pending = bytearray()
+        self.ev = asyncio.Event()
+        self.closed = False
+        self.total = bytearray()
+        self.pieces = 0
+
+    def write(self, data):
+        self.pending += data
+        self.total += data
+        self.ev.set()
+
+    async def drain(self):
+        await asyncio.sleep(0)
+
+    def close(self):
+        self.closed = True
+        self.ev.set()
+
+    async def wait_closed(self):
+        await asyncio.sleep(0)
+
+    def is_closing(self):
+        return self.closed
+
+    def get_extra_info(self, name, default=None):
+        return default
+
+    async def pump(self):
+        while True:
+            await self.ev.wait()
+            self.ev.clear()
+            while self.pending:
+                n = self.rng.choice([1, 1, 2, 3, 5, 8, self.rng.randint(1, self.maxpiece), len(self.pending)])
+                chunk = bytes(self.pending[:n])
+                del self.pending[:n]
+                self.reader.feed_data(chunk)
+                self.pieces += 1
+                await asyncio.sleep(self.rng.choice([0, 0, 0, 0.001, 0.001, 0.05, 0.05, 0.3, 0.3, 0.3, 7.0, 45.0 if self.rng.random() < 0.3 else 0.0]))
+            if self.closed:
+                self.reader.feed_eof()
+                return
+
+
+async def _exchange(_srv, base, init, kind, cls, scheme, msgs, mode, rng):
+    """a real line client talking to a real server loop over two _Pipes -> (successful reads, timeouts, server log, wire totals)"""
+    from gallia.transports.base import TargetURI
+
+    t, handler, limit = await _start_via_run(_srv, base, kind, init)
+    s_reader = asyncio.StreamReader(limit=limit) if limit else asyncio.StreamReader()
+    c_reader = asyncio.StreamReader()
+    c2s = _Pipe(s_reader, rng, 700)
+    s2c = _Pipe(c_reader, rng, 700)
+    tasks = [asyncio.ensure_future(c2s.pump()), asyncio.ensure_future(s2c.pump()), asyncio.ensure_future(handler(s_reader, s2c))]
+    tr = cls(TargetURI(f"{scheme}://127.0.0.1:1"), c_reader, c2s)
+    got, timeouts, errors = [], 0, []
+
+    async def rd(timeout):
+        nonlocal timeouts
+        try:
+            d = await tr.read(timeout=timeout)
+            got.append(_res(d))
+        except (TimeoutError, asyncio.TimeoutError):
+            timeouts += 1
+        except Exception as e:  # noqa: BLE001
+            errors.append(type(e).__name__)
+            got.append("bad")
+
+    async def settle():
+        """read on until a long read times out with nothing left in flight in either direction"""
+        for _ in range(50 * len(msgs) + 50):
+            t0 = timeouts
+            await rd(30.0)
+            if timeouts > t0 and not c2s.pending and not s2c.pending:
+                return
+        errors.append("settle-bound")
+
+    if mode == "pipelined":
+        for m in msgs:
+            await tr.write(m, timeout=1.0)
+        for _ in range(8 * len(msgs) + 8):
+            await rd(rng.choice([0.01, 0.1, 0.4]))
+        await settle()
+    else:  # lock-step request(); an unanswered request times out
+        for m in msgs:
+            try:
+                d = await tr.request(m, timeout=rng.choice([0.02, 0.2, 2.0]))
+                got.append(_res(d))
+            except (TimeoutError, asyncio.TimeoutError):
+                timeouts += 1
+            except Exception as e:  # noqa: BLE001
+                errors.append(type(e).__name__)
+                got.append("bad")
+        await settle()
+    locked = tr.mutex.locked()
+    await tr.close()
+    await asyncio.sleep(1.0)  # EOF reaches the server loop; it ends
+    end = _task_end(tasks[2])
+    for x in tasks:
+        x.cancel()
+    for x in tasks:
+        try:
+            await x
+        except BaseException:  # noqa: BLE001
+            pass
+    return {"got": got, "timeouts": timeouts, "errors": errors, "log": list(getattr(t, "log", [])), "c2s": bytes(c2s.total),
+            "s2c": bytes(s2c.total), "pieces": (c2s.pieces, s2c.pieces), "server_end": end, "mutex_locked": locked}
+
+
+def _run_exchange(ctx, _srv, variants):
+    """both directions composed: real client <-> real server loop, random segmentation and delays in both directions, read
+    timeouts falling inside lines; against `exchange` of the model (scripted handler) and, with a real RandomUDSServer
+    behind handle_request, against the replies handle_request gave"""
+    TX = _make_server_classes(_srv)
+    rng = ctx.rng
+    cases = []
+    firsts = list(range(256))
+    rng.shuffle(firsts)
+    for i in range(0, 256, 8):  # every first byte value (0xEE ends the loop: the rest of that burst stays unanswered)
+        cases.append(("first-bytes", [bytes([b]) + bytes(rng.randrange(256) for _ in range(rng.choice([0, 1, 3]))) for b in firsts[i:i + 8]]))
+    for n in (1, 2, 4094, 4095, 4096, 20000):
+        big = bytes([0x35]) + bytes(rng.randrange(256) for _ in range(n - 1))
+        cases.append((f"len-{n}", [b"\x3e\x01", big, b"\x10\x01", b"\x27\x01"]))
+    for _ in range(ctx.pick(40, 400)):
+        cases.append(("seeded", [m for m in _msgs(rng, rng.randint(1, 8), ctx.pick(120, 4095))]))
+    runs = []
+
+    async def all_(a, b):
+        out = []
+        for k, (_label, msgs) in list(enumerate(cases))[a:b]:
+            cls, scheme = variants[k % 2]
+            mode = "pipelined" if (k // 2) % 2 == 0 else "lockstep"
+            r = random_for(k)
+            try:
+                out.append((mode, scheme, await asyncio.wait_for(_exchange(_srv, TX, None, (k // 4) % 2, cls, scheme, msgs, mode, r), 20000.0)))
+            except Exception as e:  # noqa: BLE001
+                out.append((mode, scheme, {"got": [f"harness:{type(e).__name__}:{e}"], "timeouts": 0, "errors": [], "log": [], "c2s": b"", "s2c": b"",
+                                           "pieces": (0, 0), "server_end": "?", "mutex_locked": False}))
+        return out
+
+    import random as _random
+
+    def random_for(k):
+        return _random.Random(f"C19:x:{ctx.seed}:{k}")
+
+    runs = []
+    for a in range(0, len(cases), 25):
+        runs += vrun(all_(a, a + 25))[0]
+    batch = [f"xchg {rng.randrange(1, 255):02x}{rng.randrange(0, 255):02x}05 {rng.randrange(1, 255):02x}01{rng.randrange(0, 255):02x} " + ",".join(hx(m) for m in msgs)
+             for _label, msgs in cases]
+    out = ctx.lean(batch)
+    for (label, msgs), (mode, scheme, r), mo in zip(cases, runs, out):
+        ctx.ev()
+        ctx.kind(f"exchange:{label}:{mode}")
+        ctx.nontrivial(("xchg", tuple(msgs), mode, scheme))
+        want = [x for x in mo.split(";") if x.startswith("msg")]
+        case = {"side": "exchange", "scheme": scheme, "mode": mode, "requests": [m.hex() for m in msgs]}
+        in_prop = all(len(m) <= 4095 for m in msgs)
+        sent = b"".join(m.hex().encode() + b"\n" for m in msgs)
+        if r["c2s"] != sent:
+            ctx.disagree("lines-exchange:request-bytes-differ", "the client put other bytes on the wire than hex(msg) + newline per request",
+                         case, impl=hx(r["c2s"])[:400], model=hx(sent)[:400], spec_violated=in_prop, site="LinesTransportMixin.write")
+        elif r["got"] != want:
+            i = next((k for k in range(min(len(want), len(r["got"]))) if want[k] != r["got"][k]), min(len(want), len(r["got"])))
+            kind = ("missing-reply" if len(r["got"]) < len(want) and i == len(r["got"]) else
+                    "extra-read-result" if i == len(want) else "wrong-or-reordered-reply")
+            ctx.disagree(f"lines-exchange:{kind}", f"{scheme} {mode}: the client read back {len(r['got'])} results, the model's exchange gives {len(want)}; first difference at {i}",
+                         case, impl={"reads": r["got"][: i + 2], "server_log": [(a.hex(), b.hex() if isinstance(b, bytes) else b) for a, b in r["log"]][: i + 3],
+                                     "server_end": r["server_end"]},
+                         model=want[: i + 2], spec_violated=in_prop, site="LinesTransportMixin.read <-> TCPUDSServerTransport.handle_client")
+        elif r["mutex_locked"]:
+            ctx.disagree("lines-exchange:mutex-left-locked", "transport mutex still held after the exchange", case, impl="locked", model="free",
+                         spec_violated=in_prop, site="BaseTransport.request")
+        ctx.kind("exchange:read-timeouts>0" if r["timeouts"] else "exchange:no-read-timeout")
+    ctx.notes["exchange-pieces"] = {"c2s": sum(r["pieces"][0] for _m, _s, r in runs), "s2c": sum(r["pieces"][1] for _m, _s, r in runs),
+                                    "read_timeouts": sum(r["timeouts"] for _m, _s, r in runs)}
+    ctx.traces_validated += len(cases)
+
+    # a real RandomUDSServer behind the real handle_request: the client reads back exactly the replies handle_request gave
+    def init_real(self):
+        rp = _srv.RandomUDSServer.RandomnessParameters()
+        server = _srv.RandomUDSServer(ctx.seed + 7, rp, _srv.UDSServer.Behavior())
+        server.randomize()
+        from gallia.transports.base import TargetURI
+        _srv.UDSServerTransport.__init__(self, server, TargetURI("tcp-lines://127.0.0.1:20162"))
+        self.log = []
+
+    class Rec(_srv.TCPUDSServerTransport):
+        async def handle_request(self, m):
+            try:
+                r = await _srv.UDSServerTransport.handle_request(self, m)
+            except Exception:
+                self.log.append((bytes(m), "raised"))
+                raise
+            self.log.append((bytes(m), r[0]))
+            return r
+
+    real_cases = []
+    for _ in range(ctx.pick(12, 120)):
+        ms = []
+        for _ in range(rng.randint(1, 10)):
+            ms.append(rng.choice([b"\x10\x01", b"\x10\x03", b"\x3e\x00", b"\x3e\x80", b"\x22\xf1\x90", b"\x27\x01", b"\x11\x01", b"\x10\x83",
+                                  bytes([rng.randrange(256)]) + bytes(rng.randrange(256) for _ in range(rng.randint(0, 6)))]))
+        real_cases.append(ms)
+
+    async def all_real(a, b):
+        out = []
+        for k, msgs in list(enumerate(real_cases))[a:b]:
+            cls, scheme = variants[k % 2]
+            mode = "pipelined" if (k // 2) % 2 == 0 else "lockstep"
+            try:
+                out.append((mode, scheme, await asyncio.wait_for(_exchange(_srv, Rec, init_real, (k // 4) % 2, cls, scheme, msgs, mode, random_for(10000 + k)), 20000.0)))
+            except Exception as e:  # noqa: BLE001
+                out.append((mode, scheme, {"got": [f"harness:{type(e).__name__}:{e}"], "log": [], "timeouts": 0, "server_end": "?", "mutex_locked": False}))
+        return out
+
+    runs2 = []
+    for a in range(0, len(real_cases), 25):
+        runs2 += vrun(all_real(a, a + 25))[0]
+    for msgs, (mode, scheme, r) in zip(real_cases, runs2):
+        ctx.ev()
+        ctx.kind(f"exchange-real-server:{mode}")
+        ctx.nontrivial(("xchg-real", tuple(msgs), mode, scheme))
+        want = ["msg " + b.hex() for _a, b in r["log"] if isinstance(b, bytes) and b]
+        handed = [a for a, _b in r["log"]]
+        raised = any(b == "raised" for _a, b in r["log"])
+        case = {"side": "exchange-real-server", "scheme": scheme, "mode": mode, "requests": [m.hex() for m in msgs], "server_seed": ctx.seed + 7}
+        if handed != msgs[: len(handed)] or (len(handed) < len(msgs) and not raised):
+            ctx.disagree("lines-exchange:requests-not-handed-over-in-order", "the server loop handed other requests to handle_request than the client sent",
+                         case, impl=[a.hex() for a in handed], model=[m.hex() for m in msgs], spec_violated=True, site="TCPUDSServerTransport.handle_client")
+        elif r["got"] != want:
+            ctx.disagree("lines-exchange:client-reads-differ-from-server-replies", "the client did not read back exactly the replies handle_request gave",
+                         case, impl=r["got"], model=want, spec_violated=True, site="LinesTransportMixin.read <-> TCPUDSServerTransport.handle_client")
+    ctx.traces_validated += len(real_cases)
+
+
 MANIFEST = {
-    "level_text": ("Lean 4 theorems over the line-framing oracle (hex text + newline): content round trip for all byte "
-                   "strings, segmentation independence for every chunking (generic Framing.feed_chunks), one message per "
-                   "read, a blocked read consumes nothing at every prefix of a line, end-of-stream never yields a message, "
-                   "server loop answers coalesced requests in order. Tied to the code by a correspondence run of the real "
-                   "LinesTransportMixin (tcp-lines, unix-lines) and TCPUDSServerTransport.handle_client over in-memory "
-                   "streams: every split point and EOF offset of short bursts exhaustively, seeded multi-splits, 4095-byte "
-                   "messages, malformed lines."),
-    "level_note": ("Trusted: Lean kernel (axioms propext, Quot.sound, Classical.choice), asyncio.StreamReader.readline "
-                   "contract, binascii, the harness; kernel TCP segmentation is represented by feed_data chunking; "
-                   "non-ASCII whitespace handling of str.strip() is outside the model."),
-    "technique": "Lean 4 proof (induction, generic framing lemma) + differential correspondence against the real transports",
+    "level_text": ("Lean 4 theorems (34, kernel-checked, standard axioms only) over (a) the line-framing oracle (hex text + newline): content "
+                   "round trip for all byte strings, segmentation independence for every chunking, one message per read, a blocked "
+                   "read consumes nothing at every prefix of a line, end-of-stream never yields a message; (b) the CLIENT as a whole "
+                   "execution (Model/LinesExec: cstep / crun over feed / eof / read / write / request / close): client_trace_spec - for "
+                   "every operation sequence the result of every read is the decoding of the next not yet delivered line of the stream "
+                   "delivered so far, pending exactly when none is complete and the stream is open, eos exactly when it has ended "
+                   "(read_pending_iff, read_eos_iff), in order and each once (client_reads_in_order, client_drained, "
+                   "client_delivers_messages), a timed-out read anywhere in any execution changes nothing "
+                   "(timed_out_read_consumes_nothing); write emits exactly hex + newline for every length (write_emits_exactly, "
+                   "enc_length), request = write; read; (c) the SERVER loop handle_client around a handler that answers / stays silent / "
+                   "raises: one reply line per answered request, none for an unanswered one, in order, for any decodable spelling "
+                   "(server_replies_in_order), what ends the loop and that nothing after it is served (server_loop_ends, "
+                   "server_empty_line_ends, server_dead_after_end), segmentation independence (server_any_segmentation); (d) both "
+                   "composed: client_server_exchange (any segmentation in both directions: the reads return exactly the server's "
+                   "replies, one per read, in order, then timeouts) and client_server_exchange_any_schedule. Code facts regenerated "
+                   "from the AST on every run with obligations (code_facts_agree, limits_cover_property_range): write has no size "
+                   "guard, no stream limit is passed on either side, request_unsafe = write; read under the mutex in request, the "
+                   "shape of the server loop. Tied by a correspondence run of the real TCPLinesTransport / UnixLinesTransport (made by "
+                   "their own connect()) and the real TCPUDSServerTransport / UnixUDSServerTransport (started by their own run()) with "
+                   "the real UDSServerTransport.handle_request: every client operation sequence up to length 5 (6 thorough) over a chunk "
+                   "alphabet with split hex digits, split newline, several lines per chunk, CRLF, undecodable line, read and eof at "
+                   "every position; sequences with write / request / close; messages of 1, 2, 4094, 4095, 4096, 20000 bytes and every "
+                   "first byte value; the server loop chunk by chunk with its end reason and unread bytes; real client <-> real server "
+                   "loop over in-memory pipes with seeded segmentation and delays in both directions, pipelined and lock-step, against "
+                   "the model's exchange and against a real RandomUDSServer's recorded replies."),
+    "level_note": ("Trusted: Lean kernel (axioms propext, Quot.sound, Classical.choice), asyncio.StreamReader.readline / wait_for "
+                   "contract, binascii, the AST translators, the harness; the reader is modelled without its 64 KiB line limit "
+                   "(obligation: no limit is passed, the default covers the property's range); kernel segmentation is represented by "
+                   "feed_data chunking and in-memory pipes; non-ASCII whitespace handling of str.strip() on the client is outside the "
+                   "model; the transport mutex is only checked to be free after each request (atomicity is C05); disagreements on "
+                   "messages longer than 4095 bytes or on close() are reported as a broken tie, not as a violation of the property."),
+    "technique": ("Lean 4 proof (refinement of the buffer machine to the delivered-stream specification, induction over operation "
+                  "sequences, generic framing lemma, well-founded server loop) + tables regenerated from the AST with proof obligations "
+                  "+ differential correspondence against the real transports and server loops"),
     "design_ref": "DESIGN.md section 7, C19",
 }
